@@ -12,6 +12,7 @@ import (
 	"time"
 
 	z "github.com/Oudwins/zog"
+	p "github.com/Oudwins/zog/internals"
 	"zogverif/mc"
 )
 
@@ -99,6 +100,7 @@ type TestSpec struct {
 	Code    string
 	Path    string // IssuePath option: the test's issue is filed under this path instead of the node's
 	Double  bool   // a hand-written test function that reports TWO issues (same code) when its predicate fails
+	ViaOld  bool   // a hand-written test function that files its issue through the deprecated Ctx.NewError(path, issue)
 	ViaCopy bool   // declared as a copy of a reusable z.Test value whose code (and path) are edited on the copy, then attached with schema.Test
 	Builtin bool
 	Fails   bool // struct tests: constant verdict
@@ -205,6 +207,8 @@ func (n *Node) Describe() string {
 			sb.WriteString("." + t.Code + "()")
 		} else if t.Double {
 			sb.WriteString(".Test(" + t.Code + ", reports two issues)")
+		} else if t.ViaOld {
+			sb.WriteString(".Test(" + t.Code + ", filed with ctx.NewError)")
 		} else if n.Kind == KStruct {
 			sb.WriteString(fmt.Sprintf(".TestFunc(%s,fails=%v)", t.Code, t.Fails))
 		} else {
@@ -255,8 +259,13 @@ func (n *Node) goType() reflect.Type {
 	return primType(n.Kind)
 }
 
+// goFieldName: the exported Go field a schema key names (the library capitalises an ASCII first letter; a key that
+// starts with a non-ASCII upper-case letter already is the field name).
 func goFieldName(key string) string {
-	return strings.ToUpper(key[:1]) + key[1:]
+	if key[0] >= 'a' && key[0] <= 'z' {
+		return strings.ToUpper(key[:1]) + key[1:]
+	}
+	return key
 }
 
 func (n *Node) defaultValue() reflect.Value {
@@ -264,6 +273,9 @@ func (n *Node) defaultValue() reflect.Value {
 		return reflect.Value{}
 	}
 	if n.Kind.Prim() {
+		if n.DefClass == 3 {
+			return reflect.Zero(primType(n.Kind)) // a default that is the Go zero value (0, false, "", the zero time) is still a default
+		}
 		c := VDefault
 		if n.DefClass == 2 {
 			c = VDefBad
@@ -447,9 +459,33 @@ func doubleTest(fn z.BoolTFunc, t TestSpec) z.Test {
 	return z.Test{IssueCode: t.Code, Func: func(val any, ctx z.Ctx) {
 		if !fn(val, ctx) {
 			ctx.AddIssue(ctx.Issue().SetCode(t.Code).SetMessage("first reason"))
-			ctx.AddIssue(ctx.Issue().SetCode(t.Code).SetMessage("second reason"))
+			// the second one wraps a Go error, as issues built from a failed lookup or parse do
+			ctx.AddIssue(ctx.Issue().SetCode(t.Code).SetMessage("second reason").SetError(fmt.Errorf("underlying cause")))
 		}
 	}}
+}
+
+// oldIfaceTest: a hand-written test that files its issue through the deprecated, still exported Ctx.NewError.
+func oldIfaceTest(fn z.BoolTFunc, t TestSpec) z.Test {
+	return z.Test{IssueCode: t.Code, Func: func(val any, ctx z.Ctx) {
+		if !fn(val, ctx) {
+			is := ctx.Issue().SetCode(t.Code).SetMessage("filed through the old interface")
+			pb := p.PathBuilder{is.Path}
+			ctx.NewError(&pb, is)
+		}
+	}}
+}
+
+func specialTest(fn z.BoolTFunc, t TestSpec) (z.Test, bool) {
+	switch {
+	case t.Double:
+		return doubleTest(fn, t), true
+	case t.ViaOld:
+		return oldIfaceTest(fn, t), true
+	case t.ViaCopy:
+		return copiedTest(fn, t), true
+	}
+	return z.Test{}, false
 }
 
 // copiedTest: a reusable test built once under a generic code, copied, the copy specialised for this use.
@@ -568,18 +604,10 @@ func BuildZog(n *Node, r *Recorder) z.ZogSchema {
 				s.Max(5, pathOpts(t)...)
 			} else {
 				fn, opt := mkTest(t, true)
-				if t.Double {
-					s.Test(doubleTest(fn, t))
-				} else if t.ViaCopy {
-					s.Test(copiedTest(fn, t))
+				if q, ok := specialTest(fn, t); ok {
+					s.Test(q)
 				} else {
-					if t.Double {
-				s.Test(doubleTest(fn, t))
-			} else if t.ViaCopy {
-				s.Test(copiedTest(fn, t))
-			} else {
-				s.TestFunc(fn, append([]z.TestOption{opt}, pathOpts(t)...)...)
-			}
+					s.TestFunc(fn, append([]z.TestOption{opt}, pathOpts(t)...)...)
 				}
 			}
 		}
@@ -605,18 +633,10 @@ func BuildZog(n *Node, r *Recorder) z.ZogSchema {
 				s.LT(100, pathOpts(t)...)
 			} else {
 				fn, opt := mkTest(t, true)
-				if t.Double {
-					s.Test(doubleTest(fn, t))
-				} else if t.ViaCopy {
-					s.Test(copiedTest(fn, t))
+				if q, ok := specialTest(fn, t); ok {
+					s.Test(q)
 				} else {
-					if t.Double {
-				s.Test(doubleTest(fn, t))
-			} else if t.ViaCopy {
-				s.Test(copiedTest(fn, t))
-			} else {
-				s.TestFunc(fn, append([]z.TestOption{opt}, pathOpts(t)...)...)
-			}
+					s.TestFunc(fn, append([]z.TestOption{opt}, pathOpts(t)...)...)
 				}
 			}
 		}
@@ -642,18 +662,10 @@ func BuildZog(n *Node, r *Recorder) z.ZogSchema {
 				s.LT(100, pathOpts(t)...)
 			} else {
 				fn, opt := mkTest(t, true)
-				if t.Double {
-					s.Test(doubleTest(fn, t))
-				} else if t.ViaCopy {
-					s.Test(copiedTest(fn, t))
+				if q, ok := specialTest(fn, t); ok {
+					s.Test(q)
 				} else {
-					if t.Double {
-				s.Test(doubleTest(fn, t))
-			} else if t.ViaCopy {
-				s.Test(copiedTest(fn, t))
-			} else {
-				s.TestFunc(fn, append([]z.TestOption{opt}, pathOpts(t)...)...)
-			}
+					s.TestFunc(fn, append([]z.TestOption{opt}, pathOpts(t)...)...)
 				}
 			}
 		}
@@ -679,18 +691,10 @@ func BuildZog(n *Node, r *Recorder) z.ZogSchema {
 				s.True()
 			} else {
 				fn, opt := mkTest(t, true)
-				if t.Double {
-					s.Test(doubleTest(fn, t))
-				} else if t.ViaCopy {
-					s.Test(copiedTest(fn, t))
+				if q, ok := specialTest(fn, t); ok {
+					s.Test(q)
 				} else {
-					if t.Double {
-				s.Test(doubleTest(fn, t))
-			} else if t.ViaCopy {
-				s.Test(copiedTest(fn, t))
-			} else {
-				s.TestFunc(fn, append([]z.TestOption{opt}, pathOpts(t)...)...)
-			}
+					s.TestFunc(fn, append([]z.TestOption{opt}, pathOpts(t)...)...)
 				}
 			}
 		}
@@ -716,18 +720,10 @@ func BuildZog(n *Node, r *Recorder) z.ZogSchema {
 				s.After(tAfter, pathOpts(t)...)
 			} else {
 				fn, opt := mkTest(t, true)
-				if t.Double {
-					s.Test(doubleTest(fn, t))
-				} else if t.ViaCopy {
-					s.Test(copiedTest(fn, t))
+				if q, ok := specialTest(fn, t); ok {
+					s.Test(q)
 				} else {
-					if t.Double {
-				s.Test(doubleTest(fn, t))
-			} else if t.ViaCopy {
-				s.Test(copiedTest(fn, t))
-			} else {
-				s.TestFunc(fn, append([]z.TestOption{opt}, pathOpts(t)...)...)
-			}
+					s.TestFunc(fn, append([]z.TestOption{opt}, pathOpts(t)...)...)
 				}
 			}
 		}
@@ -750,18 +746,10 @@ func BuildZog(n *Node, r *Recorder) z.ZogSchema {
 				s.Min(2, pathOpts(t)...)
 			} else {
 				fn, opt := mkTest(t, false)
-				if t.Double {
-					s.Test(doubleTest(fn, t))
-				} else if t.ViaCopy {
-					s.Test(copiedTest(fn, t))
+				if q, ok := specialTest(fn, t); ok {
+					s.Test(q)
 				} else {
-					if t.Double {
-				s.Test(doubleTest(fn, t))
-			} else if t.ViaCopy {
-				s.Test(copiedTest(fn, t))
-			} else {
-				s.TestFunc(fn, append([]z.TestOption{opt}, pathOpts(t)...)...)
-			}
+					s.TestFunc(fn, append([]z.TestOption{opt}, pathOpts(t)...)...)
 				}
 			}
 		}
